@@ -242,6 +242,9 @@ func (rn *run) msg(id int) proto.Message {
 		if kind == "" && id == 1 && rn.scn.Cl.Form == "rest" && rn.scn.Cl.Method == "Query" {
 			kind = "empty" // a REST GET without path variables and query parameters carries the empty message
 		}
+		if kind == "" && id == 1 && rn.scn.Cl.Form == "connect_get" && rn.rnd.Intn(3) == 0 {
+			kind = "tricky" // (the message travels inside URLs and through the stable JSON form)
+		}
 		if kind == "" {
 			kind = msgKinds[rn.rnd.Intn(len(msgKinds))]
 			if rn.faulty && kind == "empty" {
